@@ -353,10 +353,11 @@ def norm_quals(t):
 
 
 def sort_quals(q):
+    """qualifiers of one level as a sorted set: repeating a qualifier means the same as writing it once (6.7.3p4)"""
     q = list(q)
     if len(q) <= 1:
         return q
-    return sorted(set(conc(x) for x in q)) if False else sorted(conc(x) for x in q)
+    return sorted(set(conc(x) for x in q))
 
 
 def norm_ast_side(t):
